@@ -833,7 +833,7 @@ impl Property for C13 {
     fn runs(&self, tier: Tier) -> u64 {
         match tier {
             Tier::Quick => 12_000,
-            Tier::Thorough => 60_000,
+            Tier::Thorough => 1_500_000,
         }
     }
     fn required_probes(&self) -> Vec<&'static str> {
